@@ -30,7 +30,7 @@ def check(rep, model, tier):
     ctx = __import__('sa.symeval', fromlist=['Ctx']).Ctx(model, no_inline=('_merge_phases',))
     E.run(model, f.qual, dict(bound), ctx=ctx)
     mp = [e for e in ctx.trace if e['kind'] == 'pkgcall' and e['name'].endswith('_merge_phases')]
-    interps = [{'args': x[2]} for e in mp for a in e['args'] for x in [a] if x[0] == 'call' and x[1] == 'interp']
+    interps = [{'args': x[2]} for e in mp for a in e['bound'].values() for x in [a] if x[0] == 'call' and x[1] == 'interp']
     half = T.mul(PI, C(Fraction(1, 2)))
     want_common = [(A['rises'], T.neg(half)), (A['decays'], half), (A['peaks'], C(0))]
     found = []
